@@ -18,6 +18,22 @@ PHASES = ENG + ".phases:"
 RANK = {"SUCCESS": 0, "FAILURE": 1, "ERROR": 2, "INTERRUPTED": 3, "SKIP": 4}
 
 
+def callsite_view(R, target, args=None, returns=None, modifies=None, call_ensures=None, effects=None, raises=None, note=""):
+    """Give `target` the abstraction used at its call sites. If the function is also under proof in this registry, its verified
+    contract is kept and only the call-site view (result shape, frame, assumed clauses) is attached; otherwise a trusted contract is created."""
+    c = R.contracts.get(target)
+    if c is None:
+        c = R.contract(target, args=args or {}, trusted=True, note=note)
+    c.returns = returns
+    c.modifies = dict(modifies or {})
+    c.call_ensures = dict(call_ensures or {})
+    if effects:
+        c.effects = dict(effects)
+    if raises is not None and c.trusted:
+        c.raises = list(raises)
+    return c
+
+
 def _only(prop, d):
     return {k: v for k, v in d.items() if k.startswith(prop + "_")}
 
@@ -382,4 +398,141 @@ def register_run_test(R, prop):
         ensures=_only(prop, ensures),
         replayable=False,
         max_paths=20000,
+    )
+
+
+# ------------------------------------------------------------------------------------------------ worker_task (producer side of the queue)
+def _scenario_events(it, env):
+    """Abstract result of run_test (its own contract: ScenarioStarted . NonFatalError* . ScenarioFinished . Interrupted?)."""
+    from pyvc.values import VGen, VObj
+
+    def ev(cls, **f):
+        o = VObj(it.resolve_class(EV + cls), {"id": fresh_opaque(it, "UUID"), "timestamp": None})
+        o.fields.update(f)
+        return o
+
+    started = ev("ScenarioStarted", phase=env["phase"], suite_id=env["suite_id"], label=None)
+    items = [started]
+    if it.path.choose([(False, True), (True, True)], "run_test:nonfatal"):
+        items.append(ev("NonFatalError", phase=env["phase"], label=None, related_to_operation=True))
+    status = EnumOf(STATUS).make(it, it.path.fresh("run_test.status"))
+    fin = ev("ScenarioFinished", phase=env["phase"], suite_id=env["suite_id"], label=None, status=status)
+    fin.fields["id"] = started.fields["id"]
+    items.append(fin)
+    if status.fields["name"] == "INTERRUPTED":
+        items.append(ev("Interrupted", phase=env["phase"]))
+    return VGen(items)
+
+
+def register_worker_task(R, prop):
+    R.opaque_classes.update({"Queue": "queue:Queue", "Producer": POOL + "TaskProducer"})
+    OKC = "schemathesis.core.result:"
+    OpDescr = Obj("schemathesis.schemas:APIOperation", label=Str, path=Str, method=Str, schema=Opq("Schema"))
+    ErrDescr = Obj("schemathesis.core.errors:InvalidSchema", path=Opt(Str), method=Opt(Str), args=Const(()))
+    R.contract(POOL + "TaskProducer.next_operation", args={"self": Opq("Producer")},
+               returns=OneOf(NoneT, Obj(OKC + "Ok", _value=OpDescr), Obj(OKC + "Err", _error=ErrDescr)), trusted=True,
+               effects={"taken": "ghost('taken') + (0 if result is None else 1)"},
+               note="next Ok(operation) / Err(InvalidSchema) from schema.get_all_operations (C08), or None when exhausted")
+    # the queue as seen from the producer: every put drives the per-worker protocol automaton
+    PUT_DFA = ("(1 if ghost('wdfa') == 0 and is_instance(item, 'ScenarioStarted') else "
+               "(1 if ghost('wdfa') == 1 and is_instance(item, 'NonFatalError') else "
+               "(0 if ghost('wdfa') == 1 and is_instance(item, 'ScenarioFinished') and item.id is ghost('wsid') else "
+               "(0 if ghost('wdfa') == 0 and is_instance(item, 'NonFatalError') and not item.related_to_operation else "
+               "(5 if ghost('wdfa') == 0 and is_instance(item, 'Interrupted') else -1)))))")
+    R.contract("queue:Queue.put", args={"self": Opq("Queue"), "item": Opq("Any")}, returns=NoneT, trusted=True,
+               effects={"wdfa": PUT_DFA, "wsid": "item.id if is_instance(item, 'ScenarioStarted') else ghost('wsid')",
+                        "closed": "ghost('closed') + (1 if is_instance(item, 'ScenarioFinished') or (is_instance(item, 'NonFatalError') and ghost('wdfa') == 0) else 0)",
+                        "started_after_stop": "ghost('started_after_stop') or (is_instance(item, 'ScenarioStarted') and ghost('last_guard'))"},
+               note="E5: thread-safe FIFO put")
+    R.contract(ECX + ".has_to_stop", kind="attribute", args={"self": Engine(abstract_limit=True)}, returns=Bool, trusted=True,
+               call_ensures={"def": "iff(result, self.control.stop_event.flag or self.control.has_reached_the_failure_limit)"},
+               effects={"last_guard": "result"},
+               note="property read (is_stopped, proved in C12); the ghost remembers what the worker last OBSERVED")
+    R.contract(UNIT + "get_strategy_kwargs", args={"ctx": Opq("Any"), "operation": Opq("Any")}, returns=Opq("Kwargs"), trusted=True, note="C14 contract")
+    R.contract("schemathesis.generation.hypothesis.builder:HypothesisTestConfig", abstract_only=True, args={"modes": Opq("Any")}, returns=Opq("TestConfig"), note="dataclass constructor")
+    # C05 fault model: a single internal fault at test construction = ANY exception, not only the two that are caught
+    R.contract("schemathesis.generation.hypothesis.builder:create_test", args={"operation": Opq("Any"), "test_func": Opq("Any"), "config": Opq("Any")},
+               returns=Opq("TestFunction"), raises=["schemathesis.core.errors:InvalidSchema", HE + "InvalidArgument", "TypeError", "RuntimeError"], trusted=True,
+               note="builds the Hypothesis test; may raise InvalidSchema / InvalidArgument (documented) or, under the single-fault model of C05, any other exception")
+    callsite_view(R, UEX + "run_test",
+                  args={"operation": Opq("Any"), "test_function": Opq("Any"), "ctx": Engine(abstract_limit=True), "phase": Opq("Any"), "suite_id": Opq("Any")},
+                  returns=_scenario_events,
+                  modifies={"ctx.control.stop_event.flag": Bool, "ctx.control.has_reached_the_failure_limit": Bool},
+                  call_ensures={"stop_monotone": "implies(old(ctx.control.stop_event.flag), ctx.control.stop_event.flag)",
+                                "limit_monotone": "implies(old(ctx.control.has_reached_the_failure_limit), ctx.control.has_reached_the_failure_limit)",
+                                "interrupted_only_after_stop": "implies(any(is_instance(e, 'Interrupted') for e in gen_items(result)), ctx.control.stop_event.flag or ctx.control.has_reached_the_failure_limit)"},
+                  note="trace contract proved on run_test itself (C05/C11); other threads may set the stop / limit flags meanwhile (monotone)")
+    R.exception_classes.update(EXT_EXC)
+    inv = {
+        "index": "i",
+        "modifies": {"ctx.control.stop_event.flag": Bool, "ctx.control.has_reached_the_failure_limit": Bool,
+                     "ghost:wdfa": Int, "ghost:wsid": Opq("Any"), "ghost:closed": IntRange(0, None), "ghost:taken": IntRange(0, None), "ghost:started_after_stop": Bool, "ghost:last_guard": Bool},
+        "clauses": ["ghost('wdfa') == 0 or (ghost('wdfa') == 5 and (ctx.control.stop_event.flag or ctx.control.has_reached_the_failure_limit))",
+                    "ghost('closed') == ghost('taken')", "not ghost('started_after_stop')"],
+    }
+    ensures = {
+        "C11_worker_puts_follow_scenario_protocol": "ghost('wdfa') in (0, 5)",
+        # every Ok/Err obtained from the producer ends in a closed scenario or a NonFatalError (or the worker was interrupted)
+        "C05_every_taken_operation_is_reported": "ghost('closed') == ghost('taken') or ghost('wdfa') == 5",
+        "C12_no_scenario_started_after_stop_observed": "not ghost('started_after_stop')",
+    }
+    R.contract(
+        UNIT + "worker_task",
+        prop=prop,
+        args={"events_queue": Opq("Queue"), "producer": Opq("Producer"),
+              "ctx": Engine(abstract_limit=True, config=Obj(ENG + ".config:EngineConfig", execution=Obj(ENG + ".config:ExecutionConfig", hypothesis_settings=Opq("Any"), seed=Opq("Any"), generation=Opq("Any")))),
+              "mode": Opq("Mode"), "phase": Opq("PhaseName"), "suite_id": Opq("UUID")},
+        ghost={"wdfa": 0, "wsid": None, "closed": 0, "taken": 0, "started_after_stop": False, "wctx": None, "last_guard": False},
+        ghost_init={"wctx": "ctx"},
+        invariants={0: inv},
+        # C05: nothing may escape the worker thread (an escaping exception kills the thread silently: the phase then ends as 'nothing to test', exit code 0)
+        raises=[],
+        ensures=_only(prop, ensures),
+        replayable=False,
+    )
+
+
+# ------------------------------------------------------------------------------------------------ cached_test_func.<locals>.wrapped
+def register_cached_test_func(R, prop):
+    NOTSET = Global("schemathesis.core:NOT_SET")
+    FAIL = "schemathesis.core.failures:Failure"
+    R.exception_classes["UnexpectedError"] = ENG + ".errors:UnexpectedError"
+    R.contract("spec:inner_test", args={"ctx": Opq("Any"), "case": Opq("Any"), "recorder": Opq("Any")}, returns=NoneT,
+               raises=["KeyboardInterrupt", FAIL, "schemathesis.core.failures:FailureGroup", "ValueError", "OSError"], trusted=True,
+               effects={"called": "ghost('called') + 1", "inner_outcome": "'ok' if raised is None else raised"},
+               note="the wrapped test body (sends the request, runs the checks): returns, or raises a failure (group), KeyboardInterrupt or any other exception")
+    R.contract(ECX + ".get_cached_outcome", args={"self": Opq("Any"), "case": Opq("Case")},
+               returns=OneOf(NOTSET, NoneT, ExcOf(FAIL), ExcOf("ValueError")), trusted=True, effects={"cached": "result"},
+               note="outcome cache lookup keyed by hash(case): NOT_SET when the input is new")
+    R.contract(ECX + ".cache_outcome", args={"self": Opq("Any"), "case": Opq("Case"), "outcome": Opq("Any")}, returns=NoneT, trusted=True,
+               effects={"stored": "ghost('stored') + 1"}, note="stores the outcome under hash(case)")
+    ensures = {
+        "C12_nothing_sent_after_stop_observed": "not old(ctx.control.stop_event.flag or ctx.control.has_reached_the_failure_limit)",
+        "C12_body_runs_at_most_once": "ghost('called') <= 1",
+        "C12_unique_inputs_never_resends_a_seen_input": "implies(ctx.config.execution.unique_inputs and ghost('cached') is not NOT_SET(), ghost('called') == 0)",
+        "C12_outcome_stored_after_every_send": "implies(ctx.config.execution.unique_inputs, ghost('stored') == ghost('called'))",
+        "C05_new_input_is_executed": "implies(not old(ctx.control.stop_event.flag or ctx.control.has_reached_the_failure_limit) and (not ctx.config.execution.unique_inputs or ghost('cached') is NOT_SET()), ghost('called') == 1)",
+        "C05_returns_only_if_body_passed_or_input_was_seen_passing": "ghost('inner_outcome') == 'ok' or (ghost('called') == 0 and ghost('cached') is None and ctx.config.execution.unique_inputs)",
+    }
+    raises_ensures = {
+        "C12_stop_observed_means_no_request": "implies(old(ctx.control.stop_event.flag or ctx.control.has_reached_the_failure_limit), ghost('called') == 0 and raised == 'KeyboardInterrupt')",
+        "C12_body_runs_at_most_once": "ghost('called') <= 1",
+        "C12_outcome_stored_after_every_send": "implies(ctx.config.execution.unique_inputs, ghost('stored') == ghost('called'))",
+        "C05_new_input_is_executed": "implies(not old(ctx.control.stop_event.flag or ctx.control.has_reached_the_failure_limit) and (not ctx.config.execution.unique_inputs or ghost('cached') is NOT_SET()), ghost('called') == 1)",
+        "C05_other_exceptions_are_recorded_before_unexpected_error": "implies(raised == 'UnexpectedError', length(errors) == old(length(errors)) + 1)",
+        "C05_failures_propagate_unchanged": "implies(ghost('inner_outcome') in ('Failure', 'FailureGroup', 'KeyboardInterrupt'), raised == ghost('inner_outcome'))",
+        "C05_errors_only_grow_with_unexpected_error": "implies(raised != 'UnexpectedError', length(errors) == old(length(errors)))",
+    }
+    R.spec_funcs["NOT_SET"] = lambda it: NOTSET.make(it, "NOT_SET")
+    R.contract(
+        UEX + "cached_test_func.<locals>.wrapped",
+        prop=prop,
+        setup=closure_of(UEX + "cached_test_func", {"f": Callable_(contract="spec:inner_test", name="f")}),
+        args={"ctx": Engine(abstract_limit=True, config=Obj(ENG + ".config:EngineConfig", execution=Obj(ENG + ".config:ExecutionConfig", unique_inputs=Bool))),
+              "case": Opq("Case"), "errors": Seq(Opq("ObjRef")), "recorder": Opq("Recorder")},
+        ghost={"called": 0, "cached": "not-looked-up", "stored": 0, "inner_outcome": "not-called"},
+        raises=["KeyboardInterrupt", FAIL, "schemathesis.core.failures:FailureGroup", "UnexpectedError"],
+        ensures=_only(prop, ensures),
+        raises_ensures=_only(prop, raises_ensures),
+        replayable=False,
     )
